@@ -256,7 +256,7 @@ func c08Deposit(e *Engine, mask uint32, withCaller bool, amt *big.Int, v int, de
 		dst = []uint32{5, 3}[v%2]
 	}
 	if mask&P3Denom != 0 {
-		denom = []string{"ueure", "uusdc2", "", "usdc"}[v%4]
+		denom = []string{"ueure", "uusdc2", "", "usdc", "uu\u017fdc", "UU\u017fDC", "uusd\u0441"}[v%7]
 	}
 	if mask&P10Caller != 0 {
 		caller = [][]byte{nil, make([]byte, 32), Structured32(1)[:31], append(Structured32(1), 2)}[v%4]
